@@ -22,6 +22,7 @@ Inductive verdict :=
 | ModeGuarded        (* written after construction only in a mode documented as NOT shareable (named in the justification) *)
 | PerThread          (* instances are owned by one transformer / execution context / evaluation; not reachable from shared state *)
 | NonConstPath       (* inside a non-const member function: needs a non-const reference, which transformations do not hold for shared objects *)
+| LazyGuarded        (* a lazy write behind a const accessor whose reachable call sites are censused separately (census_constlookup) and all audited as non-shared-write *)
 | ReadOnly           (* the site does not write (cast adds const, value only read, placeholder never written) *)
 | SharedWrite.       (* a write to state shared between transforming threads: a FINDING *)
 
@@ -67,7 +68,7 @@ Definition constcast_audit : list ((string * string * string * string * nat) * v
     (("Include/XalanAutoPtr.hpp", "XalanAutoPtr", "XalanAutoPtr::XalanAutoPtr", "XalanAutoPtr<Type>&", 1), ConstructionOnly, "auto_ptr-style ownership transfer in the copy constructor; shared objects are not copied by transformations");
     (("Include/XalanDeque.hpp", "XalanDeque", "XalanDeque::begin const", "XalanDeque*", 1), ReadOnly, "forwards to the non-const begin(), which only builds an iterator");
     (("Include/XalanDeque.hpp", "XalanDeque", "XalanDeque::end const", "XalanDeque*", 1), ReadOnly, "forwards to the non-const end(), which only builds an iterator");
-    (("Include/XalanList.hpp", "XalanList", "XalanList::getListHead const", "XalanList*", 1), SharedWrite, "FINDING KT2: forwards to the non-const getListHead(), which ALLOCATES and stores m_listHead when the list was never used; reached from begin()/end() const, hence from XalanMap::end()/find() const on an empty map, e.g. XalanSourceTreeDocument::getElementById / getUnparsedEntityURI on a shared source without IDs / unparsed entities (the head cannot simply be allocated in the constructor: static containers are built with the throwing dummy memory manager)");
+    (("Include/XalanList.hpp", "XalanList", "XalanList::getListHead const", "XalanList*", 1), LazyGuarded, "forwards to the non-const getListHead(), which ALLOCATES and stores m_listHead when the list was never used (the head cannot be allocated in the constructor: static containers are built with the throwing dummy memory manager); reached from begin()/end() const, hence XalanMap/XalanSet begin()/end()/find() const. Every const lookup on a container data member is listed in census_constlookup and audited in constlookup_audit: on shared objects each is guarded by empty() (XalanSourceTreeDocument::getElementById/getUnparsedEntityURI, was finding KT2, fixed 24f879b; NamespacesHandler::getNamespaceAlias), primed/populated before sharing, or compile-time only");
     (("Include/XalanMap.hpp", "XalanMap", "XalanMap::begin const", "XalanMap*", 1), ReadOnly, "forwards to non-const begin(); the only write below it is XalanList::getListHead (audited there)");
     (("Include/XalanMap.hpp", "XalanMap", "XalanMap::doCreateEntry", "key_type*", 1), NonConstPath, "in-place construction of the key of a new entry; doCreateEntry is a non-const member (insert / operator[])");
     (("Include/XalanMap.hpp", "XalanMap", "XalanMap::end const", "XalanMap*", 1), ReadOnly, "forwards to non-const end(); the only write below it is XalanList::getListHead (audited there)");
@@ -128,6 +129,45 @@ Definition static_audit : list ((string * string * string * list (string * strin
     (("XalanTransformer/XalanCAPI.cpp", "", "fInitialized", [("XalanInitialize", "w")]), InitOnly, "C API initialisation flag");
     (("XalanTransformer/XalanTransformer.hpp", "XalanTransformer", "s_emptyInputSource", [("XalanTransformer::initialize", "w"); ("XalanTransformer::terminate", "w"); ("XalanTransformer::transform", "m")]), InitOnly, "transform reads the pointer (const XSLTInputSource*)") ].
 
+(* (e) const lookups on XalanMap / XalanSet / XalanList data members: XalanList::begin()/end() const allocate the
+   list head of a never-used container (the const_cast in XalanList::getListHead const), so every such site in a
+   const member function is censused (with: guarded by empty()? primed by a constructor/postConstruction? callers)
+   and audited *)
+Definition constlookup_audit : list ((string * string * string * string * string * string * string) * verdict * string) :=
+  [
+    (("ArenaAllocator", "m_blocks", "List", "ArenaAllocator::getBlockCount const", "size", "unguarded", "many(47)"), PerThread, "diagnostic accessor: besides forwarding wrappers its only caller is the APACHE_XALAN_C_VERIF statistics hook of the per-thread StylesheetExecutionContextDefault");
+    (("ExtensionFunctionHandler", "m_functions", "Set", "ExtensionFunctionHandler::isFunctionAvailable const", "end,find", "unguarded", ""), ConstructionOnly, "no caller outside the class: extension namespace handlers are consulted only while compiling");
+    (("ExtensionNSHandler", "m_elements", "Set", "ExtensionNSHandler::isElementAvailable const", "end,find", "unguarded", ""), ConstructionOnly, "as isFunctionAvailable: no run-time caller");
+    (("ICUBridgeCollationCompareFunctorImpl", "m_collatorCache", "List", "ICUBridgeCollationCompareFunctorImpl::cacheCollator const", "back,front,size", "unguarded", "ICUBridgeCollationCompareFunctorImpl::doCompareCached"), PerThread, "functor created per XalanTransformer (class_audit)");
+    (("ICUBridgeCollationCompareFunctorImpl", "m_collatorCache", "List", "ICUBridgeCollationCompareFunctorImpl::getCachedCollator const", "arg,begin,end", "unguarded", "ICUBridgeCollationCompareFunctorImpl::doCompareCached"), PerThread, "functor created per XalanTransformer (class_audit)");
+    (("ICUFormatNumberFunctor", "m_decimalFormatCache", "List", "ICUFormatNumberFunctor::cacheDecimalFormat const", "back,front,size", "unguarded", "ICUFormatNumberFunctor::doFormat"), PerThread, "functor created per XalanTransformer (class_audit)");
+    (("ICUFormatNumberFunctor", "m_decimalFormatCache", "List", "ICUFormatNumberFunctor::getCachedDecimalFormat const", "arg,begin,end", "unguarded", "ICUFormatNumberFunctor::doFormat"), PerThread, "functor created per XalanTransformer (class_audit)");
+    (("KeyTable", "m_keys", "Map", "KeyTable::getNodeSetByKey const", "end,find", "unguarded+primed", "StylesheetExecutionContextDefault::getNodeSetByKey;StylesheetRoot::getNodeSetByKey;getNodeSet"), PerThread, "KeyTable objects are built and owned by one execution context (m_keyTables)");
+    (("NamespacesHandler", "m_namespaceAliases", "Map", "NamespacesHandler::getNamespaceAlias const", "end,find", "guarded", "NamespacesHandler::processNamespaceAliases"), ReadOnly, "guarded by m_namespaceAliases.empty(); NamespacesHandler is shared but the lookup is never reached on an empty map");
+    (("Stylesheet", "m_attributePatternTable", "Map", "Stylesheet::locateAttributeMatchPatternDataList const", "end,find", "unguarded+primed", "Stylesheet::locateMatchPatternDataList"), ConstructionOnly, "Stylesheet::Stylesheet takes m_attributePatternTable.end() (m_attributePatternTableEnd): head allocated before sharing");
+    (("Stylesheet", "m_elementPatternTable", "Map", "Stylesheet::locateElementMatchPatternDataList const", "end,find", "unguarded+primed", "Stylesheet::locateMatchPatternDataList"), ConstructionOnly, "Stylesheet::Stylesheet takes m_elementPatternTable.end() (m_elementPatternTableEnd): head allocated before sharing");
+    (("Stylesheet", "m_extensionNamespaces", "Map", "Stylesheet::lookupExtensionNSHandler const", "end,find", "unguarded", "StylesheetHandler::startElement"), ConstructionOnly, "only caller StylesheetHandler::startElement (compiling)");
+    (("Stylesheet", "m_namedTemplates", "Map", "Stylesheet::findNamedTemplate const", "end,find", "unguarded", "ElemCallTemplate::postConstruction"), ConstructionOnly, "only caller ElemCallTemplate::postConstruction (compiling); call-template targets are resolved before sharing");
+    (("StylesheetRoot", "m_attributeSetsMap", "Map", "StylesheetRoot::getAttributeSet const", "end,find", "unguarded+primed", "ElemUse::getNextAttributeSet"), ConstructionOnly, "StylesheetRoot::postConstruction iterates m_attributeSetsMap.begin()..end() unconditionally: head allocated before sharing");
+    (("XPathEnvSupportDefault", "m_externalFunctions", "Map", "XPathEnvSupportDefault::findFunction const", "arg", "unguarded", "XPathEnvSupportDefault::extFunction;XPathEnvSupportDefault::functionAvailable"), PerThread, "m_externalFunctions belongs to the per-transformation XSLTProcessorEnvSupportDefault");
+    (("XPathEnvSupportDefault", "m_sourceDocs", "Map", "XPathEnvSupportDefault::findURIFromDoc const", "begin,end", "unguarded", "many(7)"), PerThread, "m_sourceDocs belongs to the per-transformation env support");
+    (("XPathEnvSupportDefault", "m_sourceDocs", "Map", "XPathEnvSupportDefault::getSourceDocument const", "end,find", "unguarded", "many(6)"), PerThread, "m_sourceDocs belongs to the per-transformation env support");
+    (("XPathEnvSupportDefault", "s_externalFunctions", "Map", "XPathEnvSupportDefault::findFunction const", "arg", "unguarded", "XPathEnvSupportDefault::extFunction;XPathEnvSupportDefault::functionAvailable"), InitOnly, "process-wide table; populated (operator[]) by the EXSLT / Xalan extension installers run from XSLTInit during initialize(), so it is never empty/unprimed when transformations look up");
+    (("XPathEnvSupportDefault", "s_externalFunctions", "Map", "XPathEnvSupportDefault::installExternalFunctionGlobal", "arg", "unguarded", "XSLTProcessorEnvSupportDefault::installExternalFunctionGlobal;XalanExtensionsInstaller::doInstallGlobal;XalanTransformer::installExternalFunctionGlobal"), ConfigAPI, "installation API, documented as not thread safe");
+    (("XPathEnvSupportDefault", "s_externalFunctions", "Map", "XPathEnvSupportDefault::terminate", "arg,begin,end", "unguarded", "many(14)"), InitOnly, "terminate()");
+    (("XPathEnvSupportDefault", "s_externalFunctions", "Map", "XPathEnvSupportDefault::uninstallExternalFunctionGlobal", "arg", "unguarded", "XSLTProcessorEnvSupportDefault::uninstallExternalFunctionGlobal;XalanExtensionsInstaller::doUninstallGlobal;XalanTransformer::uninstallExternalFunctionGlobal"), ConfigAPI, "installation API, documented as not thread safe");
+    (("XPathProcessorImpl", "m_namespaces", "Map", "XPathProcessorImpl::replaceTokenWithNamespaceToken const", "end,find", "unguarded", "XPathProcessorImpl::FunctionCall;XPathProcessorImpl::NodeTest;XPathProcessorImpl::QName"), ConstructionOnly, "XPath compilation");
+    (("XalanDocumentPrefixResolver", "m_namespaces", "Map", "XalanDocumentPrefixResolver::getNamespaceForPrefix const", "end,find", "unguarded", "many(32)"), PerThread, "resolver objects are created per evaluation / per construction step");
+    (("XalanSet", "m_map", "Map", "XalanSet::begin const", "begin", "unguarded", "-"), ReadOnly, "container wrapper: every XalanSet data member is censused at its own lookup sites");
+    (("XalanSet", "m_map", "Map", "XalanSet::end const", "end", "unguarded", "-"), ReadOnly, "as XalanSet::begin");
+    (("XalanSet", "m_map", "Map", "XalanSet::find const", "find", "unguarded", "-"), ReadOnly, "as XalanSet::begin");
+    (("XalanSourceTreeDocument", "m_elementsByID", "Map", "XalanSourceTreeDocument::getElementById const", "end,find", "guarded", "FunctionID::execute;XercesDocumentWrapper::getElementById;getDoc"), ReadOnly, "guarded by m_elementsByID.empty() (fix 24f879b): the lazy head allocation is not reached on a shared document without IDs");
+    (("XalanSourceTreeDocument", "m_unparsedEntityURIs", "Map", "XalanSourceTreeDocument::getUnparsedEntityURI const", "end,find", "guarded", "many(5)"), ReadOnly, "guarded by m_unparsedEntityURIs.empty() (fix 24f879b)");
+    (("XalanSourceTreeParserLiaison", "m_documentMap", "Map", "XalanSourceTreeParserLiaison::mapDocument const", "end,find", "unguarded", "XalanDefaultParsedSource::XalanDefaultParsedSource;XalanSourceTreeDOMSupport::getUnparsedEntityURI;XalanSourceTreeParserLiaison::destroyDocument"), ConstructionOnly, "the liaison of a shared XalanDefaultParsedSource registered its document while parsing (map populated before sharing); helper liaisons are per transformer");
+    (("XercesParserLiaison", "m_documentMap", "Map", "XercesParserLiaison::mapDocumentToWrapper const", "end,find", "unguarded", "XercesDOMSupport::getUnparsedEntityURI"), PerThread, "XercesDOMParsedSourceHelper creates a liaison per transformer; the parsed source's own liaison is not consulted by transformations");
+    (("XercesParserLiaison", "m_documentMap", "Map", "XercesParserLiaison::mapToXercesDocument const", "end,find", "unguarded", ""), PerThread, "as mapDocumentToWrapper");
+    (("XercesWrapperToXalanNodeMap", "m_xercesMap", "Map", "XercesWrapperToXalanNodeMap::getNode const", "end,find", "unguarded", "XSLTEngineImpl::getSourceTreeFromInput;XSLTEngineImpl::processStylesheet;XercesDocumentWrapper::mapNode"), ConstructionOnly, "XercesDocumentWrapper::XercesDocumentWrapper always adds the (DOMDocument, this) association (XercesDocumentWrapper.cpp:116): map populated before sharing") ].
+
 Definition localstatic_audit : list ((string * string * string) * verdict * string) :=
   [ (("PlatformSupport/XalanLocator.hpp", "XalanLocator::getEmptyPtr", "theEmpty"), ReadOnly, "pointer to a const zero character, initialised once (C++11 thread-safe local static), never reassigned") ].
 
@@ -167,6 +207,10 @@ Definition stat_eqb (a b : string * string * string * list (string * string)) :=
   match a, b with (a1, a2, a3, a4), (b1, b2, b3, b4) =>
     (String.eqb a1 b1 && String.eqb a2 b2 && String.eqb a3 b3 && list_eqb pair_eqb a4 b4)%bool end.
 
+Definition look_eqb (a b : string * string * string * string * string * string * string) :=
+  match a, b with (a1, a2, a3, a4, a5, a6, a7), (b1, b2, b3, b4, b5, b6, b7) =>
+    (String.eqb a1 b1 && String.eqb a2 b2 && String.eqb a3 b3 && String.eqb a4 b4 && String.eqb a5 b5 && String.eqb a6 b6 && String.eqb a7 b7)%bool end.
+
 Definition class_verdict (c : string) : option verdict :=
   match find (fun e => String.eqb c (fst (fst e))) class_audit with Some e => Some (snd (fst e)) | None => None end.
 Definition class_listed (c : string) : bool := match class_verdict c with Some _ => true | None => false end.
@@ -181,7 +225,7 @@ Definition static_init_only (e : string * string * string * list (string * strin
 Definition static_residue := filter (fun e => negb (static_init_only e)) census_static.
 
 (* the findings: audit entries with verdict SharedWrite *)
-Definition known_shared_writes : list string := ["XalanList::getListHead const"].
+Definition known_shared_writes : list string := [].
 
 Definition cast_fn (e : string * string * string * string * nat) := match e with (_, _, f, _, _) => f end.
 
@@ -190,14 +234,16 @@ Definition audit_check : bool :=
    && list_eqb cast_eqb constcast_residue (map (fun a => fst (fst a)) constcast_audit)
    && list_eqb stat_eqb static_residue (map (fun a => fst (fst a)) static_audit)
    && list_eqb trip_eqb census_localstatic (map (fun a => fst (fst a)) localstatic_audit)
-   && list_eqb trip_eqb census_owner (map facility_home all_facilities))%bool.
+   && list_eqb trip_eqb census_owner (map facility_home all_facilities)
+   && list_eqb look_eqb census_constlookup (map (fun a => fst (fst a)) constlookup_audit))%bool.
 
 Definition verdicts_check : bool :=
   (forallb (fun a => verdict_ok (snd (fst a))) class_audit
    && forallb (fun a => verdict_ok (snd (fst a))) mutable_audit
    && forallb (fun a => (verdict_ok (snd (fst a)) || str_in (cast_fn (fst (fst a))) known_shared_writes)%bool) constcast_audit
    && forallb (fun a => verdict_ok (snd (fst a))) static_audit
-   && forallb (fun a => verdict_ok (snd (fst a))) localstatic_audit)%bool.
+   && forallb (fun a => verdict_ok (snd (fst a))) localstatic_audit
+   && forallb (fun a => verdict_ok (snd (fst a))) constlookup_audit)%bool.
 
 Definition owners_perthread_check : bool :=
   forallb (fun f => let c := snd (facility_home f) in
